@@ -139,11 +139,16 @@ def to_wikitext(
             parts.append(recurse(node.children))
             parts.append("\n|}\n")
         elif kind == NodeKind.TABLE_CAPTION:
+            tc_text = recurse(node.children)
+            # Caption text that starts with a space stays on the marker line
+            # (like cell contents): on a line of its own it would be parsed
+            # as preformatted text
+            tc_nl = "" if tc_text.startswith((" ", "\t")) else "\n"
             if tc_attrs := to_attrs(node):
-                parts.append("\n|+ {} |\n".format(tc_attrs))
+                parts.append("\n|+ {} |{}".format(tc_attrs, tc_nl))
             else:
-                parts.append("\n|+\n")
-            parts.append(recurse(node.children))
+                parts.append("\n|+{}".format(tc_nl))
+            parts.append(tc_text)
         elif kind == NodeKind.TABLE_ROW:
             parts.append("\n|- {}\n".format(to_attrs(node)))
             parts.append(recurse(node.children))
